@@ -189,13 +189,16 @@ func (f *Fetcher) genRanges(ctx context.Context) <-chan fetchRange {
 
 		for start < end || f.opts.Continuous {
 			// In continuous mode wait for bigger STH every time we reach the end,
-			// including, possibly, the very first iteration.
-			if start == end { // Implies f.opts.Continuous == true.
+			// including, possibly, the very first iteration. StartIndex may lie
+			// beyond the current tree: keep waiting until the tree has grown past
+			// it, and never move the cursor backwards.
+			if start >= end { // Implies f.opts.Continuous == true.
 				if err := f.updateSTH(ctx); err != nil {
 					klog.Warningf("%s: Failed to obtain bigger STH: %v", f.uri, err)
 					return
 				}
 				end = f.opts.EndIndex
+				continue
 			}
 
 			batchEnd := start + min(end-start, batch)
